@@ -23,7 +23,8 @@ const (
 	clsHookMissing     = "C19/stage-complete-hook-missing"
 	clsHangSyncPanic   = "C19/no-completion/sync-child-panic-under-async-parent"
 	clsHangPlanPanic   = "C19/no-completion/plan-panic-under-async-parent"
-	clsHangLostTask    = "C19/no-completion/task-rejected-by-pool"
+	clsHangLostTask    = "C19/no-completion/task-rejected-context-done"
+	clsHangRejected    = "C19/no-completion/task-rejected-context-not-done"
 	clsHangAbandoned   = "C19/no-completion/pool-consumed-task-without-calling-handlers"
 	clsHangAllDone     = "C19/no-completion/all-stages-completed"
 	clsHangOther       = "C19/no-completion/other"
@@ -32,7 +33,7 @@ const (
 	clsStatsState      = "C19/stats-state-disagrees-with-outcome"
 	clsErrHandleNil    = "C19/err-handler-called-with-nil"
 	clsNotStarted      = "C19/planned-stage-never-started"
-	clsTaskLostLater   = "C19/stage-task-rejected-or-abandoned-by-pool"
+	clsTaskLostLater   = "C19/stage-task-abandoned-by-pool"
 )
 
 type viol struct {
@@ -61,6 +62,7 @@ type stageFacts struct {
 	hExits      int
 	hUnwinds    int
 	lost        bool
+	rejected    bool
 	abandoned   bool
 	planned     int // number of stages NextStages() returned
 }
@@ -89,6 +91,7 @@ func judge(out *caseOutcome) (vs []viol, facts map[string]int) {
 		return f
 	}
 	var callbacks []event
+	cancelSeq := -1
 	firstPanic := -1
 	mainPanic := false
 	for _, e := range out.Trace {
@@ -97,6 +100,9 @@ func judge(out *caseOutcome) (vs []viol, facts map[string]int) {
 			callbacks = append(callbacks, e)
 			continue
 		case evMainReturn:
+			continue
+		case evCancel:
+			cancelSeq = e.Seq
 			continue
 		case evMainPanic:
 			mainPanic = true
@@ -157,6 +163,11 @@ func judge(out *caseOutcome) (vs []viol, facts map[string]int) {
 			fmt.Sscan(e.Info, &f.planned)
 		case evHEnter:
 			f.hEnters = append(f.hEnters, e)
+			if cancelSeq >= 0 && e.Info == "err" && f.opStarts == 0 && f.failSeq < 0 && strings.Contains(e.Err, "context") {
+				// the stage was refused because the context is done and said so: that is a failed stage
+				f.fail(e.Seq, "error", e.Err)
+				f.rejected = true
+			}
 			if e.Info == "err-nil" {
 				add(clsErrHandleNil, "stage s%d: the error handler was invoked with a nil error", e.Stage)
 			}
@@ -166,6 +177,8 @@ func judge(out *caseOutcome) (vs []viol, facts map[string]int) {
 			f.hUnwinds++
 		case evLost:
 			f.lost = true
+			f.fail(e.Seq, "error", "context")
+			f.rejected = true
 		case evAbandoned:
 			f.abandoned = true
 		}
@@ -190,13 +203,8 @@ func judge(out *caseOutcome) (vs []viol, facts map[string]int) {
 			add(clsHookTwice, "stage s%d: Complete() called %d times (t=%v)", id, len(f.hooks), f.hooks)
 		}
 		// the state machine must be told at most once that a stage is over (every call decrements pending)
-		terminal := 0
-		for _, h := range f.hEnters {
-			_ = h
-			terminal++
-		}
-		if terminal-f.hUnwinds > 1 {
-			add(clsHandlerTwice, "stage s%d: %d completion/error handler calls that ran to the end", id, terminal-f.hUnwinds)
+		if n := len(f.hEnters) - f.hUnwinds; n > 1 {
+			add(clsHandlerTwice, "stage s%d: %d completion/error handler calls that ran to the end", id, n)
 		}
 	}
 	// coverage facts: which stage was completed last by the state machine
@@ -228,6 +236,14 @@ func judge(out *caseOutcome) (vs []viol, facts map[string]int) {
 			facts["pooled_stage_panicked"] = 1
 		}
 	}
+	if cancelSeq >= 0 {
+		facts["runs_with_context_cancelled"] = 1
+		for _, id := range ids {
+			if st[id].rejected {
+				facts["stages_rejected_after_cancel"]++
+			}
+		}
+	}
 	facts["stages_registered"] = len(ids)
 	facts["stages_failed"] = nFails
 	facts["stages_panicked"] = nPanics
@@ -248,7 +264,7 @@ func judge(out *caseOutcome) (vs []viol, facts map[string]int) {
 		if !out.Quiescent {
 			return vs, facts
 		}
-		// zero times, decided logically: all runners returned, all operators ended, pools drained a sentinel.
+		// zero times, decided logically: all runners returned, all operators ended, the pools' counters are idle and Pool.Stop() returned
 		var unfinished []int
 		syncOrigin, planOrigin, lostTask, unexplained, abandoned := []int{}, []int{}, []int{}, []int{}, []int{}
 		for _, id := range ids {
@@ -282,8 +298,11 @@ func judge(out *caseOutcome) (vs []viol, facts map[string]int) {
 			add(clsHangOther, "callback never invoked; stages %v never completed for no recognised reason; %s", unexplained, detail)
 		case len(abandoned) > 0:
 			add(clsHangAbandoned, "callback never invoked; the pools consumed the tasks of stages %v (their counters are idle) but neither the completion nor the error handler of these stages was ever called; %s", abandoned, detail)
+		case len(lostTask) > 0 && cancelSeq < 0:
+			add(clsHangRejected, "callback never invoked; the pools counted the tasks of stages %v as rejected although their context was never cancelled; %s", lostTask, detail)
 		case len(lostTask) > 0:
-			add(clsHangLostTask, "callback never invoked; async stages %v were handed to their pool and never ran; %s", lostTask, detail)
+			add(clsHangLostTask, "callback never invoked; the context of the pooled stages was cancelled at t=%d, the stages %v were then handed to their pool, "+
+				"which counted them as rejected and dropped them without calling any handler: they stay pending forever; %s", cancelSeq, lostTask, detail)
 		case len(syncOrigin) > 0:
 			add(clsHangSyncPanic, "callback never invoked; inline (sync) stages %v panicked below a stage that runs on a pool: "+
 				"the pool reported the panic as the pooled stage's failure, the inline stages stay pending forever; %s", syncOrigin, detail)
@@ -448,8 +467,8 @@ func judge(out *caseOutcome) (vs []viol, facts map[string]int) {
 			}
 		}
 	}
-	if len(out.Lost)+len(out.Abandoned) > 0 {
-		add(clsTaskLostLater, "pooled stages rejected by their pool: %v, consumed by their pool without any handler call: %v", out.Lost, out.Abandoned)
+	if len(out.Abandoned) > 0 {
+		add(clsTaskLostLater, "pooled stages %v were consumed by their pool without any handler call", out.Abandoned)
 	}
 	_ = mainPanic
 	return vs, facts
